@@ -221,6 +221,50 @@ def r4_3(ctx, fx):
     ctx.floor(rid, n, 2, "element-helper writes")
 
 
+def r4_4(ctx, fx):
+    import re
+    rid = "R4.4"
+    ctx.rule(rid, "collapse witness: in BD_Shape / Octagonal_Shape a call of set_zero_dim_univ() that is not under a zero-dimension test (the object is being reduced to dimension 0) is preceded on every path by the closure of the receiver (shortest_path_closure_assign / strong_closure_assign, which detects emptiness) and lies on the false edge of marked_empty() — removing all dimensions of a not-yet-detected empty shape must give the empty shape, not the universe")
+    n = 0
+    seen = set()
+    for f in fx.functions:
+        if f.clsn not in ("BD_Shape", "Octagonal_Shape") or f.flag("pattern") or f.kind in ("ctor", "dtor") or not f.cfg:
+            continue
+        if (f.relfile, f.line) in seen:
+            continue
+        closure = "shortest_path_closure_assign" if f.clsn == "BD_Shape" else "strong_closure_assign"
+        for c in f.calls():
+            if c["k"] != "mcall" or f.call_name(c) != "set_zero_dim_univ" or f.root(f.call_obj(c)) != ("this",):
+                continue
+            zero_guard = False
+            child = c
+            for a in f.ancestors(c):
+                if a["k"] == "if" and f.within(child, f.deref(a["c"][3])):
+                    ct = f.text(f.deref(a["c"][2])).replace(" ", "")
+                    if re.search(r"(^|&&|\|\|)(x\.)?(space_dim|dim|space_dimension\(\)|old_space_dim)==0", ct):
+                        zero_guard = True
+                child = a
+            seen.add((f.relfile, f.line))
+            if zero_guard:
+                continue
+            n += 1
+            inst = "%s::%s collapses to the universe" % (f.clsn, f.name)
+            p1 = flow.must_precede(f, c, lambda y: y["k"] == "mcall" and f.call_name(y) in (closure, "is_empty") and f.root(f.call_obj(y)) == ("this",))
+
+            def me_false(tc, taken):
+                t = f.text(tc).replace(" ", "")
+                return (t == "marked_empty()" and not taken) or (t == "!marked_empty()" and taken)
+            tgt = set(x["i"] for x in f.walk(c))
+            p2 = flow.Explorer(f).find_path("ENTRY", lambda y: False, lambda y: y["i"] in tgt, edge_blocked=me_false)
+            if p1 is not None:
+                ctx.violation(rid, inst, f.where(c), "set_zero_dim_univ() is reached on a path without %s(): an empty shape whose emptiness was never computed becomes the universe (%s)" % (closure, flow.render_path(f, p1)))
+            elif p2 is not None:
+                ctx.violation(rid, inst, f.where(c), "set_zero_dim_univ() is reached without the marked_empty() test")
+            else:
+                ctx.ok(rid, inst, f.where(c))
+    ctx.floor(rid, n, 4, "collapsing set_zero_dim_univ sites")
+
+
 def run(ctx):
     ctx.explanation = ("C04 canonical-form protocol on BD_Shape<mpq_class> / Octagonal_Shape<mpq_class>: flag typestate over CFG paths; "
                        "decides the protocol clause (answers cannot depend on whether an operand happens to be closed/reduced), not the closure arithmetic")
@@ -230,3 +274,4 @@ def run(ctx):
     ctx.floor("R4.2", n, 250, "write events x flags")
     r4_3(ctx, fx)
     r4_1(ctx, fx)
+    r4_4(ctx, fx)
